@@ -247,6 +247,31 @@ CLAIMED.update({
     },
 })
 
+CLAIMED.update({
+    "C35": {
+        "technique": "static analysis: exhaustive evaluation of every standalone domain<->protobuf enum conversion pair; operator wire-name round trip",
+        "level": ("Static, exhaustive per variant: for the 15 standalone conversion pairs between a fieldless domain enum and its wire enum "
+                  "(discovered from all function signatures in the workspace) decode(encode(v)) = v; Operator::from_proto_name and "
+                  "from_proto_binary_op map every operator's wire name back to that operator or refuse it with an explicit error (never "
+                  "to a different operator). A wrong tag makes two different plans encode identically. Field coverage of the messages "
+                  "and equality of whole plans are not decided."),
+    },
+    "C36": {
+        "technique": "static analysis: exhaustive evaluation of enum conversions; inline enum mappings extracted from try_to_proto / try_from_proto by forcing the domain of the wire-typed local",
+        "level": ("Static, exhaustive per variant: for 5 operator enum fields (AggregateExec.mode, HashJoinExec.mode, AnalyzeExec.format, "
+                  "SymmetricHashJoinExec.join_type / null_equality) the operator's own try_to_proto and try_from_proto are explored and "
+                  "decode(encode(v)) = v; 5 further fields are listed as not extractable (conversion in helpers); plus the 10 standalone "
+                  "pairs used by physical plans. Field coverage and equality of whole plans are not decided."),
+    },
+    "C43": {
+        "technique": "static analysis: key/field agreement of set / visit / reset extracted from MIR (string-literal arms, decoded format templates, field tags); exhaustive Display/FromStr round trip of leaf option enums",
+        "level": ("Static: for 15 configuration namespaces (about 200 keys) the keys accepted by set, reported by visit and accepted by "
+                  "reset coincide and each key touches the same field in all three; an unknown key is rejected without touching a field; "
+                  "for 10 leaf option enums from_str(display(v)) = Ok(v) for every variant (Dialect is table-driven and listed as "
+                  "undecided). Numeric parsing and the SET/SHOW plumbing are not decided."),
+    },
+})
+
 NA = {
     'C01': 'whole-pipeline value semantics over all queries x all table contents: functional verification, no clause visible in code shape beyond C03/C05/C47',
     'C08': 'ordering/permutation of runtime values (loser tree, cursors, heaps are value algorithms); no structural clause',
